@@ -146,6 +146,11 @@ def run_case_isolated(machine, case, wall_cap=None):
         try:
             os.close(r)
             res = run_case(machine, case, wall_cap=cap)
+            try:
+                from . import seams as _seams
+                res["native"] = sorted("%s.%s" % k for k in _seams.native.calls)
+            except Exception:
+                pass
             with os.fdopen(w, "w") as f:
                 f.write(json.dumps(res))
         except BaseException:
@@ -258,7 +263,7 @@ def _chunk_inner(args, forced_runner):
     agg = {"evaluations": 0, "digests": set(), "faults": collections.Counter(),
            "probes": collections.Counter(), "states": set(), "steps": 0, "violations": [],
            "harness_errors": [], "samples": [], "obs": {}, "observations": [], "not_judged": 0,
-           "nontrivial_total": 0}
+           "nontrivial_total": 0, "native": set()}
     for idx in range(lo, hi):
         seed = run_seed(master, m.PROPERTY, tier, idx)
         rng = Rng(seed)
@@ -274,6 +279,7 @@ def _chunk_inner(args, forced_runner):
             continue
         res = runner(m, case)
         agg["evaluations"] += 1
+        agg["native"].update(res.get("native", ()))
         agg["faults"].update(res["faults"])
         agg["probes"].update(res["probes"])
         agg["states"].update(res["states"])
@@ -297,9 +303,9 @@ def _chunk_inner(args, forced_runner):
                                    "faults_fired": res["faults"]})
     try:
         from . import seams as _seams
-        agg["native"] = set("%s.%s" % k for k in _seams.native.calls)
+        agg["native"].update("%s.%s" % k for k in _seams.native.calls)
     except Exception:
-        agg["native"] = set()
+        pass
     return agg
 
 
